@@ -25,7 +25,10 @@ func VerifH_SYS_C18() {
 	}
 	var errs []error
 	rc := &RetryClient{ResponseTimeout: T}
-	rc.OnError = func(err error) { verifLock(); errs = append(errs, err); verifUnlock() }
+	withOnError := verifChoice("onerror", 2) == 0
+	if withOnError {
+		rc.OnError = func(err error) { verifLock(); errs = append(errs, err); verifUnlock() }
+	}
 	cli, err := NewReconnectClient(b, WithReconnectWait(unit, 4*unit), WithRetryClient(rc))
 	verifAssert(err == nil, "SYS.new_client")
 	kinds := []int{rkPub1, rkPub2, rkSub, rkUnsub}
@@ -56,7 +59,7 @@ func VerifH_SYS_C18() {
 			// and a new connection was dialled afterwards
 			verifAssert(len(b.conns) > at.conn+1, "C18.redial_after_timeout")
 		}
-		if dropped {
+		if dropped && withOnError {
 			found := false
 			for _, e := range errs {
 				var rte *RequestTimeoutError
